@@ -1,6 +1,7 @@
 package main
 
 import (
+	"golang.org/x/tools/go/ssa"
 	"flag"
 	"fmt"
 	"os"
@@ -31,6 +32,8 @@ func main() {
 		os.Exit(runCheck(*prop, *tier))
 	case "fn":
 		os.Exit(debugFn(os.Args[2], os.Args[3:]))
+	case "frame":
+		os.Exit(debugFrame(os.Args[2], os.Args[3:]))
 	case "wk":
 		os.Exit(debugWK(os.Args[2], os.Args[3]))
 	case "replay":
@@ -108,6 +111,50 @@ func debugWK(pkgSuffix, key string) int {
 		for _, k := range sortedKeys(w.writeKeys(fn)) {
 			fmt.Println(k)
 		}
+	}
+	return 0
+}
+
+func debugFrame(pkgSuffix string, keys []string) int {
+	w, err := loadWorld("./...")
+	if err != nil {
+		fmt.Fprintln(os.Stderr, err)
+		return 2
+	}
+	var roots []*ssa.Function
+	for path := range w.SSAPkgs {
+		if !strings.HasSuffix(path, pkgSuffix) || !strings.HasPrefix(path, modPath) {
+			continue
+		}
+		for _, k := range keys {
+			if strings.HasSuffix(k, ".*") {
+				roots = append(roots, w.methodsOf(path, strings.TrimSuffix(k, ".*"))...)
+				continue
+			}
+			if fn := w.lookupFunc(path, k); fn != nil {
+				roots = append(roots, fn)
+			}
+		}
+	}
+	a := newFrameAn(w, roots)
+	a.run()
+	fmt.Printf("roots=%d nodes=%d writes=%d reads=%d\n", len(roots), len(a.order), len(a.Writes), len(a.Reads))
+	seen := map[string]bool{}
+	for _, wr := range a.Writes {
+		if wr.Fresh {
+			continue
+		}
+		l := fmt.Sprintf("NONFRESH %s %s in %s at %s: %s", wr.What, wr.Key, wr.Fn, wr.Site, wr.Expr)
+		if !seen[l] {
+			seen[l] = true
+			fmt.Println(l)
+		}
+	}
+	for _, u := range a.Unmodelled {
+		fmt.Println("UNMODELLED", u)
+	}
+	for _, e := range sortedKeys(a.External) {
+		fmt.Println("EXTERNAL", e)
 	}
 	return 0
 }
